@@ -953,6 +953,9 @@ class Evaluator:
             return self.mk_bool(h, parts)
         if h == "empty":
             return FALSE
+        if h == "orelse":
+            # `a or b` on values: truthy iff one of them is
+            return self.mk_bool("or", [self.as_cond(t[1]), self.as_cond(t[2])])
         if h in ("setlit", "listlit", "tuplelit", "dictlit"):
             return TRUE if t[1] else FALSE
         if h == "rec":
@@ -1359,8 +1362,12 @@ class Evaluator:
             elif a == b and not has_unknown(a):
                 res = TRUE
             else:
-                res = ("eq", a, b)
+                res = self._eq_by_class(a, b)
             return res if isinstance(op, ast.Eq) else self.negate(res)
+        if a[0] == "const" and b[0] == "const" and isinstance(a[1], (int, float)) and isinstance(b[1], (int, float)) and not isinstance(a[1], bool) and not isinstance(b[1], bool):
+            v = {ast.Lt: a[1] < b[1], ast.LtE: a[1] <= b[1], ast.Gt: a[1] > b[1], ast.GtE: a[1] >= b[1]}.get(type(op))
+            if v is not None:
+                return TRUE if v else FALSE
         setty = self.is_setlike(a) or self.is_setlike(b)
         if isinstance(op, ast.Lt):
             return ("psubset", a, b) if setty else ("lt", a, b)
@@ -1371,6 +1378,71 @@ class Evaluator:
         if isinstance(op, ast.GtE):
             return ("subset", b, a) if setty else ("le", b, a)
         return unknown("cmp")
+
+    def _exact_class(self, t: Term) -> Cls | None:
+        """The dynamic class of a value, when it is known exactly: a constructor term, or a value typed with a class without subclasses."""
+        if t[0] in ("rec", "new") and isinstance(t[1], str):
+            return self.model.classes.get(t[1])
+        typ = self.types.get(t)
+        if isinstance(typ, tuple) and typ and typ[0] == "cls":
+            c = self.model.classes.get(typ[1])
+            if c is not None and not c.all_subclasses():
+                return c
+        return None
+
+    def _possible_classes(self, t: Term) -> set | None:
+        if t[0] in ("rec", "new") and isinstance(t[1], str):
+            c = self.model.classes.get(t[1])
+            return {c.qname} if c is not None else None
+        typ = self.types.get(t)
+        if isinstance(typ, tuple) and typ and typ[0] == "cls":
+            c = self.model.classes.get(typ[1])
+            if c is not None:
+                return {c.qname} | {k.qname for k in c.all_subclasses()}
+        return None
+
+    def _eq_by_class(self, a: Term, b: Term) -> Term:
+        """Dataclass equality compares the class first: values whose possible dynamic classes are disjoint are unequal; two values of
+        one field-less dataclass are equal."""
+        pa, pb = self._possible_classes(a), self._possible_classes(b)
+        if pa is not None and pb is not None:
+            # a hand-written __eq__ (e.g. `return isinstance(other, One)`) decides: Python asks the left operand first; a generated
+            # dataclass __eq__ answers NotImplemented for another class, then the right operand's __eq__ is asked with swapped roles
+            def custom(poss):
+                if len(poss) != 1:
+                    return None
+                c = self.model.classes[next(iter(poss))]
+                m = c.find_method("__eq__")
+                return m if m is not None and m.cls is not None and not m.cls.is_dataclass else None
+            def is_dc(poss):
+                return all(self.model.classes[q].is_dataclass or any(k.is_dataclass for k in self.model.classes[q].mro()) for q in poss)
+            for x, y, px, py in ((a, b, pa, pb), (b, a, pb, pa)):
+                m = custom(px)
+                if m is not None and (x is a or (is_dc(py) and not (px & py))) and len(self.stack) < self.max_depth and len(m.params) == 2:
+                    try:
+                        ps = self._run(m, {m.params[1]: y}, x)
+                    except Exception:  # noqa: BLE001
+                        ps = []
+                    if len(ps) == 1 and ps[0].kind == "return" and not ps[0].conds:
+                        return self.as_cond(ps[0].value)
+                    break
+            def dc(q):
+                c = self.model.classes[q]
+                return c.is_dataclass or any(k.is_dataclass for k in c.mro())
+            if all(dc(q) for q in pa | pb):
+                if not (pa & pb):
+                    return FALSE
+                if len(pa) == 1 and pa == pb and not self.model.classes[next(iter(pa))].all_fields():
+                    return TRUE
+        return ("eq", a, b)
+
+    def _literal_items(self, t: Term) -> list | None:
+        """Elements of a statically known finite sequence (after tuple()/list()/iter() wrappers), else None."""
+        while t[0] == "call" and t[1] in ("tuple", "list", "iter") and len(t[2]) == 1 and not t[3]:
+            t = t[2][0]
+        if t[0] in ("listlit", "tuplelit") and not any(x[0] == "star" for x in t[1]):
+            return list(t[1])
+        return None
 
     def isnone(self, x: Term) -> Term:
         if x == NONE:
@@ -1400,6 +1472,29 @@ class Evaluator:
             elt = ("kv", self.eval1(e.key, s, func), self.eval1(e.value, s, func))
         else:
             elt = self.eval1(e.elt, s, func)
+        if kind in ("list", "gen") and len(e.generators) == 1:
+            items = self._literal_items(gens[0][1])
+            if items is not None and len(items) <= 4:
+                out = []
+                ok = True
+                for x in items:
+                    s2 = state.fork()
+                    self.assign(e.generators[0].target, x, s2, func)
+                    keep = True
+                    for c in e.generators[0].ifs:
+                        cv = self.as_cond(self.eval1(c, s2, func))
+                        if cv == FALSE:
+                            keep = False
+                            break
+                        if cv != TRUE:
+                            ok = False
+                            break
+                    if not ok:
+                        break
+                    if keep:
+                        out.append(self.eval1(e.elt, s2, func))
+                if ok:
+                    return ("listlit", tuple(out))
         return ("comp", kind, elt, tuple(gens))
 
     # -------------------------------------------------------------- calls
@@ -1787,9 +1882,22 @@ class Evaluator:
         if name == "isinstance" and len(args) == 2:
             return [(state, self.isinstance_term(args[0], args[1]))]
         if name in ("any", "all") and len(args) == 1:
+            items = self._literal_items(args[0])
+            if items is not None:
+                cs = [self.as_cond(x) for x in items]
+                return [(state, self.mk_bool("or" if name == "any" else "and", cs) if cs else (FALSE if name == "any" else TRUE))]
             return [(state, (name, args[0]))]
+        if name in ("tuple", "list") and len(args) == 1 and not kwargs:
+            items = self._literal_items(args[0])
+            if items is not None:
+                return [(state, ("tuplelit" if name == "tuple" else "listlit", tuple(items)))]
         if name == "len" and len(args) == 1:
             a = args[0]
+            a0 = a
+            while a0[0] == "call" and a0[1] in ("sorted", "tuple", "list", "reversed") and len(a0[2]) == 1:
+                a0 = a0[2][0]  # same length
+            if a0[0] in ("listlit", "tuplelit") and not any(x[0] == "star" for x in a0[1]):
+                return [(state, const(len(a0[1])))]
             if a[0] in ("listlit", "tuplelit") and not any(x[0] == "star" for x in a[1]):
                 return [(state, const(len(a[1])))]
             return [(state, ("len", a))]
@@ -1978,6 +2086,8 @@ class Evaluator:
             return self._concat(cur, ("listlit", (args[0],)))
         if name == "extend" and len(args) == 1:
             return self._concat(cur, args[0])
+        if name == "sort" and not args:
+            return ("call", "sorted", (cur,), tuple(sorted(kwargs.items())))
         if name == "intersection_update" and len(args) == 1:
             return ("inter", cur, args[0])
         if name == "difference_update" and len(args) == 1:
@@ -2049,3 +2159,148 @@ def _mentions(t: Term, sub: Term) -> bool:
     from .terms import subterms
 
     return any(s == sub for s in subterms(t))
+
+
+def _neg(c: Term) -> Term:
+    if c[0] == "not":
+        return c[1]
+    if c[0] == "ne":
+        return ("eq", c[1], c[2])
+    if c[0] == "eq":
+        return ("ne", c[1], c[2])
+    return ("not", c)
+
+
+def _pos_alts(c: Term, limit: int) -> list[list[Term]]:
+    h = c[0]
+    if h == "not":
+        return _neg_alts(c[1], limit)
+    if h == "and":
+        out = [[]]
+        for x in c[1:]:
+            out = [a + b for a in out for b in _pos_alts(x, limit)]
+            if len(out) > limit:
+                return [[c]]
+        return out
+    if h == "or":
+        first, rest = c[1], c[2:]
+        out = list(_pos_alts(first, limit))
+        if rest:
+            tail = ("or",) + tuple(rest) if len(rest) > 1 else rest[0]
+            out += [n + p for n in _neg_alts(first, limit) for p in _pos_alts(tail, limit)]
+        return out if len(out) <= limit else [[c]]
+    return [[c]]
+
+
+def _neg_alts(c: Term, limit: int) -> list[list[Term]]:
+    h = c[0]
+    if h == "not":
+        return _pos_alts(c[1], limit)
+    if h == "or":
+        out = [[]]
+        for x in c[1:]:
+            out = [a + b for a in out for b in _neg_alts(x, limit)]
+            if len(out) > limit:
+                return [[_neg(c)]]
+        return out
+    if h == "and":
+        first, rest = c[1], c[2:]
+        out = list(_neg_alts(first, limit))
+        if rest:
+            tail = ("and",) + tuple(rest) if len(rest) > 1 else rest[0]
+            out += [p + n for p in _pos_alts(first, limit) for n in _neg_alts(tail, limit)]
+        return out if len(out) <= limit else [[_neg(c)]]
+    return [[_neg(c)]]
+
+
+def _first_ite(t):
+    for s_ in _subterms(t):
+        if s_[0] == "ite":
+            return s_
+    return None
+
+
+def _subterms(t):
+    if isinstance(t, tuple):
+        if t and isinstance(t[0], str):
+            yield t
+            for x in t[1:]:
+                yield from _subterms(x)
+        else:
+            for x in t:
+                yield from _subterms(x)
+
+
+def resolve_ites(paths: list[Path], limit: int = 64) -> list[Path]:
+    """Conditional expressions inside a returned value are case distinctions: decide them from the path's own guard, or split the path."""
+    out: list[Path] = []
+    work = list(paths)
+    budget = limit * max(1, len(paths))
+    while work:
+        p = work.pop()
+        budget -= 1
+        it = _first_ite(p.value)
+        if it is None:
+            for c0 in p.conds:
+                it = _first_ite(c0)
+                if it is not None:
+                    break
+        if it is None or budget < 0:
+            out.append(p)
+            continue
+        c = it[1]
+        ca = alpha_normalise(c)
+        pos = {alpha_normalise(x) for x in p.conds}
+        neg = {alpha_normalise(_neg(x)) for x in p.conds}
+        lits_t = [l for alt in _pos_alts(c, 8) for l in alt] if c[0] in ("and", "or", "not") else [c]
+        def red(path, branch, extra=()):
+            m = {it: branch}
+            conds = tuple(subst(x, m) for x in path.conds)
+            for l in extra:
+                conds = add_cond(conds, l)
+            return replace(path, conds=conds, value=subst(path.value, m))
+
+        if ca in pos or (c[0] == "and" and all(alpha_normalise(x) in pos for x in c[1:])):
+            work.append(red(p, it[2]))
+        elif ca in neg or alpha_normalise(_neg(c)) in pos:
+            work.append(red(p, it[3]))
+        else:
+            for alt in _pos_alts(c, 8):
+                work.append(red(p, it[2], alt))
+            for alt in _neg_alts(c, 8):
+                work.append(red(p, it[3], alt))
+    # drop syntactically contradictory paths
+    res = []
+    for p in out:
+        pos = {alpha_normalise(c) for c in p.conds if c[0] != "not"}
+        if any(c[0] == "not" and alpha_normalise(c[1]) in pos for c in p.conds):
+            continue
+        res.append(p)
+    return res
+
+
+def dnf_paths(paths: list[Path], limit: int = 32) -> list[Path]:
+    """Split every path whose guard contains a disjunction into paths whose guards are conjunctions of literals
+    (`if A or B: s` is `if A: s elif B: s`).  Values are untouched, so the set of (input, outcome) pairs is the same."""
+    out: list[Path] = []
+    for p in paths:
+        alts: list[list[Term]] = [[]]
+        for c in p.conds:
+            cs = _pos_alts(c, limit)
+            alts = [a + b for a in alts for b in cs]
+            if len(alts) > limit:
+                alts = None
+                break
+        if alts is None or len(alts) == 1 and len(alts[0]) == len(p.conds) and tuple(alts[0]) == tuple(p.conds):
+            out.append(p)
+            continue
+        for a in alts:
+            conds: tuple = ()
+            for c in a:
+                conds = add_cond(conds, c)
+            # drop syntactically contradictory alternatives
+            pos = {alpha_normalise(c) for c in conds if c[0] != "not"}
+            if any(c[0] == "not" and alpha_normalise(c[1]) in pos for c in conds):
+                continue
+            out.append(replace(p, conds=conds))
+    return resolve_ites(out)
